@@ -19,7 +19,7 @@ RULE = ('cases = (source list, source kind, condition kind+stream, list of next(
         'iterators returned by split) run against aiuti.itertools.split with logging sources/conditions; '
         'exhaustive layer: every source length 0..L, every condition stream (callable results / iterable of '
         'length len-1..len+1), every interleaving of len+3 next() calls (observed after each call, so all '
-        'prefixes are covered; sources and iterable conditions rotate over one-shot iterator / re-iterable object / real list subclass, so empty (falsy) lists occur; one-shot iterators with an under- and an over-estimating __length_hint__ for exhaust and split); random layer: longer sources, non-bool truthy/falsy condition values, '
+        'prefixes are covered; sources and iterable conditions rotate over one-shot iterator / re-iterable object / real list subclass, so empty (falsy) lists occur; one-shot iterators with an under- and an over-estimating __length_hint__ for exhaust and split; callable conditions given as plain functions, functools.partial objects and callable objects that are ALSO iterable — split must call them); random layer: longer sources, non-bool truthy/falsy condition values, '
         'abandoning one side.  non-trivial = both sides are advanced, something is yielded and len>=2 '
         '(decided by Case_C18.nontrivial inside Coq); distinct = distinct (case, trace) pairs among those')
 EXHAUSTIVE_NOTE = 'exhaustive layer enumerates all op interleavings for sources of length <= L (L=3 quick, 4 thorough)'
@@ -129,12 +129,28 @@ def run_impl(case):
     src = KINDS[case['src']](elems, plog, pstops)
     fancy = case.get('fancy', False)
     if case['callable']:
-        def cond(e):
+        def _pred(e):
             k = len(elog)
             elog.append(e.i)
             # stateful: the k-th evaluation returns the k-th entry of cs
             b = cs[k] if k < len(cs) else False
             return truth_obj(b, k, fancy)
+        if case.get('cform') == 'object':
+            class _CallableIterable:           # callable AND iterable: split must CALL it
+                def __call__(self, e):
+                    return _pred(e)
+
+                def __iter__(self):            # a decoy stream that says the opposite
+                    return iter([not b for b in cs])
+
+                def __getitem__(self, i):
+                    return not cs[i]
+            cond = _CallableIterable()
+        elif case.get('cform') == 'partial':
+            import functools
+            cond = functools.partial(lambda tag, e: _pred(e), 'p')
+        else:
+            cond = _pred
     else:
         cvals = [truth_obj(b, k, fancy) for k, b in enumerate(cs)]
         cond = KINDS[case['csrc']](cvals, elog, cstops)
@@ -180,9 +196,12 @@ def explain_exprs(case, o):
             f"{C.coq_list([C.coq_bool(b) for b in case['cs']])} {C.coq_list(case['ops'])} init in (os, plog s, elog s)"]
 
 
-def mk(xs, cs, ops, callable_, src='iterator', csrc='iterator', fancy=False):
-    return dict(kind='split', xs=list(xs), cs=list(cs), ops=list(ops), callable=callable_,
-                src=src, csrc=csrc, fancy=fancy)
+def mk(xs, cs, ops, callable_, src='iterator', csrc='iterator', fancy=False, cform=None):
+    c = dict(kind='split', xs=list(xs), cs=list(cs), ops=list(ops), callable=callable_,
+             src=src, csrc=csrc, fancy=fancy)
+    if cform and callable_:
+        c['cform'] = cform          # 'object': a callable that is also iterable; 'partial': functools.partial
+    return c
 
 
 def corpus():
@@ -194,6 +213,7 @@ def corpus():
         mk([1, 0, 2, 1], [False, False, True, True], 'LRRL', True, fancy=True),
         mk([1, 0, 2], [], 'LRLR', False, src='list', csrc='list'),                    # empty (falsy) list as condition
         mk([], [True], 'LR', False, src='list', csrc='list'),                         # empty (falsy) list as source
+        mk([1, 0, 2, 1], [True, False, False, True], 'LRLRLR', True, cform='object'),  # callable that is also iterable
         dict(kind='exhaust', n=5, src='hint_under'),                                  # under-estimating __length_hint__
         dict(kind='exhaust', n=3, src='iterator'),
         dict(kind='exhaust', n=0, src='iterable'),
@@ -213,7 +233,8 @@ def gen_exhaustive(tier, seed):
             for j, ops in enumerate(opss):
                 out.append(mk(xs, cs, ops, cal,
                               src=KIND_NAMES[(k + j) % 3],
-                              csrc=KIND_NAMES[(k + j // 3) % 3]))
+                              csrc=KIND_NAMES[(k + j // 3) % 3],
+                              cform=[None, 'object', 'partial'][(k + 2 * j) % 3]))
     for n in range(0, 6):
         out.append(dict(kind='exhaust', n=n, src='iterator'))
         out.append(dict(kind='exhaust', n=n, src='iterable'))
@@ -248,7 +269,8 @@ def gen_random(tier, seed):
         else:
             ops = ''.join(rnd.choice('LR') for _ in range(k + 2))
         out.append(mk(xs, cs, ops, cal, src=rnd.choice(KIND_NAMES + HINT_KINDS),
-                      csrc=rnd.choice(KIND_NAMES + HINT_KINDS), fancy=rnd.random() < 0.5))
+                      csrc=rnd.choice(KIND_NAMES + HINT_KINDS), fancy=rnd.random() < 0.5,
+                      cform=rnd.choice([None, None, 'object', 'partial'])))
     return out
 
 
